@@ -44,7 +44,12 @@ def renderings(th):
 def plan(tier):
     th = tier == 'thorough'
     qs = []
-    for r in renderings(th):
+    rs = renderings(th)
+    if not th:
+        # quick: every third rendering plus the ones that permute items / use -- (a different third per seed)
+        seed = int(os.environ.get('VERIF_SEED', '0') or 0)
+        rs = [r for i, r in enumerate(rs) if i % 3 == seed % 3 or '--' in r]
+    for r in rs:
         wit = [W_OK]
         qs.append(Q(P, 1, r, wit=wit, k=4, est_gb=4))
     # typed access: decimal text of up to 3 digits with optional sign -> the number
